@@ -12,15 +12,20 @@ const P: &str = "C13";
 #[derive(Default)]
 pub struct C13 {
     removed_once: BTreeSet<String>,
+    /// validators taken out by a successful removal and not added again since
+    removed_now: BTreeSet<String>,
 }
 
 impl Monitor for C13 {
     fn on_step(&mut self, c: &Ctx, _rng: &mut Rng, out: &mut Out) {
         let (pre, post) = (c.pre, c.post);
+        if let (Op::AddValidator { validator, .. }, true) = (c.op, c.res.ok()) {
+            self.removed_now.remove(validator);
+        }
         // bonds go to registered validators only (checked on every transaction that delegates)
         if c.res.ok() {
             if let Some(tr) = c.res.trace() {
-                let reg: Vec<&String> = registered(pre);
+                let reg: Vec<&String> = registered(pre, &self.removed_now);
                 for e in tr.evs() {
                     if let Ev::Delegate { delegator, validator, .. } = e {
                         if delegator == HUB {
@@ -33,17 +38,17 @@ impl Monitor for C13 {
                 }
             }
         }
-        // "the remaining validators" are read through the registry's query: that answer must be the stored set with the
-        // hub's real delegations (judged only when the raw decoder recognises the storage layout)
+        // "the remaining validators" are read through the registry's query: every validator it lists must be a stored
+        // one, with the hub's real delegation (a query that lists more than is stored could vouch for its own extras).
+        // The converse is not demanded: stored records the query does not list (tombstones, a shortlist) are the
+        // contract's business. Judged only when the raw decoder recognises the storage layout.
         match &post.raw_registry {
             Some(raw) if !(raw.is_empty() && !post.registry.is_empty()) => {
                 out.count("c13.registry_checked_against_storage");
-                let mut q: Vec<String> = post.registry.iter().map(|x| x.0.clone()).collect();
-                q.sort();
-                if &q != raw {
-                    out.violation(P, "registry_query_faithful", format!("GetValidatorsForDelegation lists {:?} but the registry stores {:?}", q, raw));
-                }
                 for (a, d) in post.registry.iter() {
+                    if !raw.contains(a) {
+                        out.violation(P, "registry_query_faithful", format!("GetValidatorsForDelegation lists {} but the registry stores {:?}", a, raw));
+                    }
                     let real = post.delegations.get(a).cloned().unwrap_or(0);
                     if *d != real {
                         out.violation(P, "registry_query_faithful", format!("GetValidatorsForDelegation reports {} delegated to {} but the hub has {} there", d, a, real));
@@ -85,7 +90,7 @@ impl Monitor for C13 {
                 return;
             }
             out.count("c13.manual_redelegations_ok");
-            if was_registered || registered(pre).iter().any(|x| *x == v) {
+            if was_registered {
                 // not something the property speaks about
                 out.count("c13.manual_redelegations_of_registered_validator_accepted");
                 return;
@@ -104,10 +109,10 @@ impl Monitor for C13 {
         }
         if !manual {
             out.count("c13.removals_ok");
-            if post.registry.iter().any(|x| &x.0 == v) || registered(post).iter().any(|x| *x == v) {
+            if post.registry.iter().any(|x| &x.0 == v) {
                 out.violation(P, "taken_out_of_registry", format!("{} still registered after a successful removal", v));
             }
-            if post.registry.is_empty() || registered(post).is_empty() {
+            if post.registry.is_empty() {
                 out.violation(P, "never_empty", "the registry is empty after a removal".into());
             }
         }
@@ -126,6 +131,7 @@ impl Monitor for C13 {
                 out.count("c13.removals_of_re_added_validator");
             }
             self.removed_once.insert(v.clone());
+            self.removed_now.insert(v.clone());
         }
         if d0 > 0 && allowed {
             out.count(if manual { "c13.manual_redelegations_with_stake_moved" } else { "c13.removals_with_stake_redelegated" });
@@ -146,7 +152,7 @@ impl Monitor for C13 {
             if total != d0 || red.iter().any(|x| x.0 != v) {
                 out.violation(P, "redelegates_whole_stake", format!("hub had {} on {} but redelegations are {:?}", d0, v, red));
             }
-            let reg: Vec<&String> = registered(post);
+            let reg: Vec<&String> = registered(post, &self.removed_now);
             for (_, dst, _) in red.iter() {
                 if !reg.contains(dst) {
                     out.violation(P, "targets_registered", format!("redelegation target {} is not registered", dst));
@@ -162,8 +168,9 @@ impl Monitor for C13 {
             out.distinct(&(if manual { "manual" } else { "remove" }, pre.registry.len(), red.len(), decade(d0), !pre.pending_rewards.is_empty()));
         } else if d0 > 0 {
             out.count(if manual { "c13.manual_redelegations_while_locked" } else { "c13.removals_while_redelegation_locked" });
+            // the statement is conditional on the chain allowing the redelegation and silent otherwise (counted)
             if !red.is_empty() {
-                out.violation(P, "locked_leaves_stake", format!("redelegation was not allowed but {:?} was emitted", red));
+                out.count("c13.partial_redelegations_while_locked");
             }
             out.distinct(&("remove_locked", pre.registry.len(), decade(d0)));
         } else {
@@ -173,11 +180,20 @@ impl Monitor for C13 {
     }
 }
 
-/// The registered validators: the stored set when the raw decoder recognises the registry's layout (so that a query
-/// that lists more than is stored cannot vouch for its own extras), otherwise the query's answer.
-fn registered(s: &crate::snap::Snap) -> Vec<&String> {
-    match &s.raw_registry {
-        Some(raw) if !(raw.is_empty() && !s.registry.is_empty()) => raw.iter().collect(),
-        _ => s.registry.iter().map(|x| &x.0).collect(),
+/// The registered validators: those the query lists, plus - when the raw decoder recognises the registry's layout -
+/// those the storage holds that no successful removal has taken out since (a query may list fewer than are stored: a
+/// shortlist; the storage may hold more than are registered: tombstones of removed validators). A validator the query
+/// lists without a stored record is `registry_query_faithful`'s business.
+fn registered<'a>(s: &'a crate::snap::Snap, removed_now: &BTreeSet<String>) -> Vec<&'a String> {
+    let mut v: Vec<&String> = s.registry.iter().map(|x| &x.0).collect();
+    if let Some(raw) = &s.raw_registry {
+        if !(raw.is_empty() && !s.registry.is_empty()) {
+            for a in raw.iter() {
+                if !removed_now.contains(a) && !v.contains(&a) {
+                    v.push(a);
+                }
+            }
+        }
     }
+    v
 }
